@@ -43,11 +43,17 @@ RESULT_SOME = call('core::option::Option::<T>::is_some', RESULT)
 RESULT_NONE = call('core::option::Option::<T>::is_none', RESULT)
 
 
+_CTX = [None]
+
+
 def game_open(c, vals):
     """does taking the switch outcome `vals` (list of case values) on condition c establish that result() is None?"""
     if c is None:
         return False
     c = norm(c)
+    if _CTX[0] is not None and any(isinstance(x, tuple) and x and x[0] == 'call' and x[1].startswith('game::Game::') and
+                                   x[1] not in ('game::Game::result',) for x in walk(c)):
+        c = inline_private(_CTX[0], c)       # `self.is_over()` and similar private wrappers
     falsey = list(vals) == [0]
     truthy = 0 not in vals and len(vals) >= 1
     if match(RESULT_SOME, c) is not None:
@@ -271,7 +277,7 @@ def r4(ctx, rule='C10.R4', only_status=False):
         return
     w = where(s.body)
     f = ctx.facts()
-    r = norm(s.ret)
+    r = inline_private(ctx, s.ret)       # e.g. a private `fn last_action(&self) -> Option<&Action>`
     status = ('discr', call('board::Board::status', call('game::Game::current_position', ('param', 1))))
     LEN = call('alloc::vec::Vec::<T, A>::len', MOVES)
     LAST = ('index', MOVES, ('bin', 'Sub', LEN, ('int', 1, 'usize')))
@@ -291,8 +297,10 @@ def r4(ctx, rule='C10.R4', only_status=False):
                 def decide(c, vals):
                     if match(status, c) is not None:
                         return f.enum_discr('board::BoardStatus', st_)
-                    if match(('bin', 'Eq', LEN, ('int', 0, 'usize')), c) is not None:
+                    if match(('bin', 'Eq', LEN, ('int', 0, 'usize')), c) is not None or match(call('alloc::vec::Vec::<T, A>::is_empty', MOVES), c) is not None:
                         return as_bool(last is None, vals)
+                    if match(('bin', 'Ne', LEN, ('int', 0, 'usize')), c) is not None or match(('bin', 'Gt', LEN, ('int', 0, 'usize')), c) is not None:
+                        return as_bool(last is not None, vals)
                     m = match(call('<game::Action as core::cmp::PartialEq>::eq', LAST, V('a')), c)
                     if m is not None:
                         k = action_const(m['a'])
@@ -540,6 +548,7 @@ def r7(ctx):
 
 
 def run(ctx):
+    _CTX[0] = ctx
     r12(ctx)
     r3(ctx)
     r4(ctx)
